@@ -13,6 +13,8 @@ Rules, written from the class docstring, `types.py`, `space.py` and `reward.py` 
 `state.sorted_ems_indexes[e]` is the state's record of which EMS of the buffer is shown at position e of the observation
 (C12 proves that the observation is exactly that selection and that the selection is the documented order).
 """
+import contextlib
+
 import jax
 import jax.numpy as jnp
 
@@ -93,9 +95,35 @@ def pick2(Lm, a):
 
 
 def masked_volume(s):
-    e = s.ems
-    vol = (e.x2 - e.x1).astype(jnp.float32) * (e.y2 - e.y1).astype(jnp.float32) * (e.z2 - e.z1).astype(jnp.float32)
-    return vol * s.ems_mask  # an invalid EMS counts as volume 0
+    return s.ems.volume() * s.ems_mask  # `Space.volume` (x_len * y_len * z_len); an invalid EMS counts as volume 0
+
+
+@contextlib.contextmanager
+def abstract_volume():
+    """Contract boundary on `Space.volume` while tracing: the volume of a box is an uninterpreted function of its six
+    coordinates (what is proved for an arbitrary function holds for the real one; both the implementation and the spec
+    `masked_volume` go through it).  Products of three symbolic lengths otherwise make the ordering queries non-linear, and
+    the engine's `fmul_uf` product is only syntactically commutative (spurious counterexamples: see the final report).
+    Concrete (replay) calls use the real method."""
+    from jumanji.environments.packing.bin_pack.space import Space
+    from jxv.stubs import uf_call
+
+    real = Space.volume
+
+    def vol(self):
+        cs = [jnp.asarray(getattr(self, c)) for c in COORDS]
+        if not any(isinstance(c, jax.core.Tracer) for c in cs):
+            return real(self)
+        f = lambda *c: uf_call("Space.volume", jnp.zeros((), jnp.float32), *c)
+        for _ in range(cs[0].ndim):
+            f = jax.vmap(f)
+        return f(*cs)
+
+    Space.volume = vol
+    try:
+        yield
+    finally:
+        Space.volume = real
 
 
 def item_volumes(s):
@@ -300,21 +328,44 @@ def problems(env, cfg, tier):
 
     # everything that depends on the ORDER of the EMS volumes (products of three symbolic lengths): products are kept as a
     # commutative uninterpreted function (fmul_uf), so the queries are linear arithmetic + UF
-    def order_ens(s, a):
-        s2, ts = env.step(s, a)
-        ok = pick2(legal(env, s), a)
-        out = {"canary.no_item_is_ever_packed": (s2.items_placed == s.items_placed).all()}
-        fr = frame_fields(s, s2)
-        for k in ORDER:
-            out["C05.illegal_state_untouched." + k] = ok | fr[k]
-        for k, v in sorted_spec(env, s2).items():  # also on LAST steps
-            out["C12.selection_" + k] = v
-            out["C06.inv_" + k] = v
-        return out
+    def order_req(s, a):
+        with abstract_volume():
+            return {**inv(env, s), "in_spec": E.in_spec(env, a)}
 
-    order = dict(title=f"BinPack.step(volume order)@{cfg}", args=(state, a), requires=lambda s, a: {**inv(env, s), "in_spec": E.in_spec(env, a)},
-                 ensures=order_ens, workers=6, timeout=300, fmul_uf=True, props=("C05", "C06", "C12"),
+    def order_ens_for(frame):
+        def order_ens(s, a):
+            with abstract_volume():
+                s2, ts = env.step(s, a)
+                ok = pick2(legal(env, s), a)
+                identical = jnp.asarray(True)  # canary scenario in which the order does not depend on the volume function
+                for c in COORDS:
+                    identical = identical & (getattr(s.ems, c) == getattr(s.ems, c)[0]).all()
+                out = {"canary.no_item_is_ever_packed_into_identical_ems": ~(identical & s.ems_mask.all()) | (s2.items_placed == s.items_placed).all()}
+                if frame:
+                    fr = frame_fields(s, s2)
+                    for k in ORDER:
+                        out["C05.illegal_state_untouched." + k] = ok | fr[k]
+                else:
+                    for k, v in sorted_spec(env, s2).items():  # also on LAST steps
+                        out["C12.selection_" + k] = v
+                        out["C06.inv_" + k] = v
+            if not frame:
+                e = s.ems
+                out["C12.volume_is_the_product_of_the_lengths"] = e.volume() == ((e.x2 - e.x1).astype(jnp.float32) * (e.y2 - e.y1).astype(jnp.float32)
+                                                                               * (e.z2 - e.z1).astype(jnp.float32))
+            return out
+        return order_ens
+
+    order_note = ("Space.volume is a contract boundary here (uninterpreted function of the coordinates); its own contract is "
+                  "C12.volume_is_the_product_of_the_lengths")
+    order = dict(title=f"BinPack.step(volume order)@{cfg}", args=(state, a), requires=order_req, ensures=order_ens_for(False), workers=6,
+                 timeout=300, fmul_uf=True, props=("C06", "C12"), note=order_note,
                  targets=[T.step, T._make_observation_and_extras, T._get_set_of_largest_ems, Space.volume])
+    # (fmul_uf off: the engine's uninterpreted product is only syntactically commutative, which gives spurious
+    #  counterexamples when the same product is formed over the old and over the new state)
+    order_frame = dict(title=f"BinPack.step(volume order, illegal action)@{cfg}", args=(state, a), requires=order_req, ensures=order_ens_for(True),
+                       workers=6, timeout=300, props=("C05",), note=order_note,
+                       targets=[T.step, T._make_observation_and_extras, T._get_set_of_largest_ems, Space.volume])
 
     # C06 proper: the geometric invariant, one obligation per conjunct (the monolithic query is `unknown` after 600 s).
     # Weaker precondition than Inv (everything below is implied by it): geometry + the cached mask is SOUND + indexes in range.
@@ -435,4 +486,4 @@ def problems(env, cfg, tier):
     reset = dict(title=f"BinPack.reset@{cfg}", args=(state, jax.random.PRNGKey(0)), requires=gen_post, ensures=reset_ens, workers=4, fmul_uf=True,
                  targets=[T.reset, T._make_observation_and_extras],
                  note="generator replaced by its post-condition (contract boundary; the generator's own contract is C10)")
-    return [step, order, geo, space, mask_fn, reset]
+    return [step, order, order_frame, geo, space, mask_fn, reset]
